@@ -459,6 +459,29 @@ def _L(m):
     return [[float(v) for v in row] for row in np.atleast_2d(m)]
 
 
+class _LinDyn:
+    """Picklable linear flow x -> F x (module level, so that a filter holding it can cross the job boundary)."""
+
+    def __init__(self, f):
+        self.F = np.array(f, dtype=float)
+
+    def propagate(self, initial_time, final_time, initial_state, station_keeping=None, scheduled_events=None, error_flags=None):
+        return self.F @ initial_state
+
+
+def _job_boundary(obj):
+    """What a Ray task argument / result goes through: pickle protocol 5, out-of-band buffers come back read-only.
+
+    (Checked against real Ray in this sandbox: ``arr.flags.writeable`` is False inside a task, for direct arguments and
+    for ``ray.get`` of a ``ray.put`` handle alike, also for tiny arrays.)
+    """
+    import pickle
+
+    bufs = []
+    data = pickle.dumps(obj, protocol=5, buffer_callback=bufs.append)
+    return pickle.loads(data, buffers=[bytes(b.raw()) for b in bufs])
+
+
 def build_filter(spec):
     from resonaate.common.labels import StackingLabel
     from resonaate.estimation.adaptive.gpb1 import GeneralizedPseudoBayesian1
@@ -469,7 +492,7 @@ def build_filter(spec):
     from resonaate.estimation.sequential_filter import FilterFlag
 
     n, k = spec["n"], spec["k"]
-    dyn = st.linear_dynamics(np.array(spec["F"], dtype=float))
+    dyn = _LinDyn(spec["F"]) if spec.get("boundary") else st.linear_dynamics(np.array(spec["F"], dtype=float))
     u = spec["ukf"]
     nominal = UnscentedKalmanFilter(10001, st.scenario_time(0.0), np.array(spec["x_nom"], dtype=float), np.array(spec["P0"], dtype=float), dyn,
                                     np.array(spec["Q"], dtype=float), StandardNis(0.01), False, True, resample=bool(u["resample"]),
@@ -583,13 +606,21 @@ def run_history(ctx, spec, rng=None):
             return stats
         truth = af.models[int(spec.get("truth", 0)) % len(af.models)]
         agent = _AgentStub(af)
+        boundary = bool(spec.get("boundary"))
         t = 0.0
         n_max = spec["max_steps"] if rng is not None else len(steps)
         for k in range(n_max):
             cur["k"] = k
             t += float(spec["dt"])
             try:
-                af.predict(st.scenario_time(t))
+                if boundary and k > 0:
+                    # (step 0 is initialize(): models are created, predicted and updated inside one job, on fresh arrays)
+                    # asyncPredict: the filter travels to the job, the AdaptivePredictResult travels back and is applied
+                    wf = _job_boundary(af)
+                    wf.predict(st.scenario_time(t))
+                    _job_boundary(wf.getPredictionResult()).apply(af)
+                else:
+                    af.predict(st.scenario_time(t))
             except np.linalg.LinAlgError:
                 stats["ended"] = "model-covariance-not-pd"
                 break
@@ -598,6 +629,13 @@ def run_history(ctx, spec, rng=None):
                 stats["ended"] = "raised"
                 break
             ctx.mon("no_exception")
+            j_truth = 0
+            if boundary and k > 0:
+                # asyncUpdateEstimate: the whole agent (with its filter) is fetched inside the job
+                j_truth = [id(m_) for m_ in af.models].index(id(truth)) if truth in af.models else 0
+                af = _job_boundary(af)
+                agent._filter = af  # noqa: SLF001
+                truth = af.models[j_truth]
             if k == 0 and spec.get("prior") is not None:
                 af.model_weights = np.array(spec["prior"], dtype=float)   # what SMM._preWeight leaves behind (after predict, before update)
             if k >= len(steps):
@@ -638,7 +676,13 @@ def run_history(ctx, spec, rng=None):
                 stats["ended"] = "model-covariance-not-pd"
                 break
             except Exception as e:  # noqa: BLE001
-                ctx.check(False, f"update-raised-{type(e).__name__}", f"step {k}: update raised {type(e).__name__}: {e}"[:300], wit(), mon="no_exception")
+                if boundary and isinstance(e, ValueError) and "read-only" in str(e):
+                    tb = traceback.extract_tb(e.__traceback__)
+                    where = next((f"{fr_.filename.rsplit('/', 1)[-1]}:{fr_.lineno} `{fr_.line}`" for fr_ in reversed(tb) if "estimation/adaptive" in fr_.filename), "?")
+                    ctx.check(False, f"{spec['cls']}-update-writes-read-only-array-in-job", f"step {k}: {type(af).__name__}.update assigns in place into an array that "
+                              f"arrived through the job boundary (read-only, as in a Ray task): {where}", wit(), mon="no_exception")
+                else:
+                    ctx.check(False, f"update-raised-{type(e).__name__}", f"step {k}: update raised {type(e).__name__}: {e}"[:300], wit(), mon="no_exception")
                 stats["ended"] = "raised"
                 break
             ctx.mon("no_exception")
@@ -647,6 +691,11 @@ def run_history(ctx, spec, rng=None):
             if obs:
                 # the agent only looks at the flags on steps with observations (EstimateAgent._update)
                 _handover(ctx, agent, af, obs, closed, wit())
+            if boundary and not closed:
+                j_truth = [id(m_) for m_ in af.models].index(id(truth)) if truth in af.models else 0
+                af = _job_boundary(af)          # EstUpdateResult.updated_filter travels back to the driver
+                agent._filter = af  # noqa: SLF001
+                truth = af.models[j_truth]
             if closed:
                 stats["ended"] = "closed"
                 stats["closed_with_models"] = len(af.models)
@@ -784,7 +833,7 @@ def gen_spec(rng, quick=True, direct_prune=False):
             "ukf": {"alpha": float(rng.choice([0.05, 0.05, 1e-3, 1.0, 0.5])), "beta": 2.0, "kappa": [None, 0.0][int(rng.integers(2))],
                     "resample": bool(rng.integers(2))},
             "prune_threshold": float(thr), "prune_percentage": pct, "mix_ratio": float(rng.choice([1.5, 1.5, 1.0, 0.5, 10 ** rng.uniform(0, 3)])),
-            "prior": prior, "truth": int(rng.integers(k)), "step_kinds": kinds,
+            "prior": prior, "truth": int(rng.integers(k)), "step_kinds": kinds, "boundary": bool(rng.random() < 0.3) and not direct_prune,
             "max_steps": int(rng.integers(2, 7 if quick else 11)), "steps": []}
     if direct_prune:
         spec["kind"] = "prune"
